@@ -432,14 +432,15 @@ func pop64Run(c *Ctx) {
 	pendingProbe := -1
 	pendingOther := -1
 	var pendingKey uint32
+	pendingChunk := uint64(0)
 	pendingBy := ""
 	steps := 30 + r.Intn(40)
 	for st := 0; st < steps && !c.Failed(); st++ {
 		op := ""
 		if pendingProbe >= 0 && pendingProbe < len(live) {
 			X := live[pendingProbe]
-			lo := uint64(pendingKey) << 32
-			if v, ok := X.M.Next(lo); ok && v <= lo|max32 {
+			lo := uint64(pendingKey)<<32 | pendingChunk<<16
+			if v, ok := X.M.Next(lo); ok && v <= uint64(pendingKey)<<32|max32 {
 				op = "alias-probe(created-by-" + pendingBy + ")"
 				c.Step("alias probe: %s.Remove(%d) (bucket %d also reachable from %s, not flagged shared on both sides; created by %s)", name(pendingProbe), v, pendingKey, name(pendingOther), pendingBy)
 				c.Guard("64/alias-probe", func() { X.B.Remove(v) })
@@ -599,10 +600,42 @@ func pop64Run(c *Ctx) {
 							pendingProbe, pendingOther = p.owner, i
 						}
 						pendingKey = bk.Key
+						pendingChunk = 0
 						pendingBy = op
 					}
 				} else if !ok {
 					seen[bk.Obj] = ref{i, bk.Shared, bk.Key}
+				}
+			}
+		}
+		// container-level monitor across the inner 32-bit bitmaps of different owners
+		type cref struct {
+			owner  int
+			inner  uintptr
+			shared bool
+			key    uint32
+		}
+		cseen := map[uintptr]cref{}
+		for i, bm := range live {
+			for _, bk := range bm.B.VerifView().Buckets {
+				if bk.Inner == nil {
+					continue
+				}
+				for _, sl := range bk.Inner.VerifView().Slots {
+					if p, ok := cseen[sl.Obj]; ok && p.owner != i && p.inner != bk.Obj {
+						if !(p.shared && sl.Shared) && pendingProbe < 0 {
+							c.Count("alias_suspects_64_inner")
+							pendingProbe, pendingOther = i, p.owner
+							if sl.Shared && !p.shared {
+								pendingProbe, pendingOther = p.owner, i
+							}
+							pendingKey = bk.Key
+							pendingChunk = uint64(sl.Key)
+							pendingBy = op
+						}
+					} else if !ok {
+						cseen[sl.Obj] = cref{i, bk.Obj, sl.Shared, bk.Key}
+					}
 				}
 			}
 		}
